@@ -221,6 +221,9 @@ def runMonitor (ops obs : Array String) : IO Unit := do
     return
   let mut pre : State := {}
   let mut hi : Spec.C17.Hi := []
+  -- batch counter of every feed at the last re-import (the batch that was in flight then stores its value under
+  -- the key the import used for the one value it kept: recorded finding F-ora-2)
+  let mut imp : List (String × Nat) := []
   let mut fails := 0
   let mut steps := 0
   for i in [0:ops.size] do
@@ -229,7 +232,22 @@ def runMonitor (ops obs : Array String) : IO Unit := do
     match t with
     | "oracle" :: "reset" :: _ =>
       match parseState o with
-      | some s => pre := s; hi := []
+      | some s => pre := s; hi := []; imp := []
+      | none => out.putStrLn s!"mon C17 FAIL clause=obs-parse line={i+1}"; fails := fails + 1
+    | ["oracle", "export"] =>
+      match parseState o with
+      | some s => pre := s
+      | none => out.putStrLn s!"mon C17 FAIL clause=obs-parse line={i+1}"; fails := fails + 1
+    | "oracle" :: "reimport" :: _ =>
+      -- restart from the module's own exported genesis (judged by `monitor C12`): the history continues from the
+      -- state the implementation shows now; the feeds it holds have to behave like feeds from then on
+      match parseState o with
+      | some s =>
+        pre := s; hi := []
+        imp := (splitList "," (arg o "batches")).filterMap fun e =>
+          match e.splitOn ":" with
+          | [f, c] => c.toNat?.map fun n => (f, n)
+          | _ => none
       | none => out.putStrLn s!"mon C17 FAIL clause=obs-parse line={i+1}"; fails := fails + 1
     | "oracle" :: "agg" :: r =>
       steps := steps + 1
@@ -270,7 +288,18 @@ def runMonitor (ops obs : Array String) : IO Unit := do
           match Spec.C17.guardOp hi op' with
           | some hi' => hi := hi'
           | none => out.putStrLn s!"mon C17 FAIL clause=batch-counter line={i+1}"; fails := fails + 1
-          for v in Spec.C17.stepVerdicts pre op' accepted post do
+          -- a batch that was in flight at the last re-import completes on this line
+          let cbs : List Cb := match op' with
+            | .respond _ cbs => cbs
+            | .block _ cbs => cbs
+            | _ => []
+          let inflight := cbs.any fun cb => match cb with
+            | .done f b _ _ => imp.any fun (e : String × Nat) => e.1 == f && e.2 == b
+            | _ => false
+          for v0 in Spec.C17.stepVerdicts pre op' accepted post do
+            let v := match v0 with
+              | .fail "history" "" => if inflight then Spec.C17.Verdict.fail "history" "F-ora-2" else v0
+              | x => x
             match showVerdict (i+1) v with
             | some m => out.putStrLn m; fails := fails + 1
             | none => pure ()
